@@ -30,6 +30,7 @@ type Op struct {
 	FillAll bool               // FA: block hash+height set on every element (importer style) or only on the last (block manager style)
 	N       uint32             // BR / BRX
 	Note    string             // what the generator meant: new|readd-same|to-genesis|interleaved|...
+	Torn    *TornSpec          // BA / FA of a torn history: executed under a double fault (see torn.go)
 }
 
 // History is a concrete operation list; a pure function of (seed, index).
